@@ -528,6 +528,93 @@ func c10StatObject(c *Ctx, a *sketchAnchors, rule string, part string) {
 				}
 			}
 			c.R.check(ok, rule, "compensated-step/shape", shortFn(kahan), c.fpos(kahan), "tmp = v − comp; t = sum + tmp; comp = (t − sum) − tmp; sum = t — on the single unconditional path", found)
+			if ok {
+				p := ps[0]
+				var sumF, compF string
+				for _, e := range p.Writes() {
+					if e.Kind == "store" && e.Addr.Op == "field" && e.Addr.Args[0].isParam(0) {
+						if e.Val.isBin("+") {
+							sumF = e.Addr.Sym
+						} else if e.Val.isBin("-") {
+							compF = e.Addr.Sym
+						}
+					}
+				}
+				// the remaining accumulators (the plain running sum kept for the overflow fallback)
+				var plain []string
+				for _, fn := range accum {
+					if fn != cntF && fn != sumF && fn != compF {
+						plain = append(plain, fn)
+					}
+				}
+				// AddToSum: the compensated step with the addend, and every plain accumulator += addend, nothing else
+				if ats := c.P.DeclaredMethod(st, "AddToSum"); ats != nil {
+					aps, _ := execPlain(c, ats, nil, 1)
+					okA := len(aps) == 1
+					foundA := fmt.Sprintf("%d path(s)", len(aps))
+					if okA {
+						ap := aps[0]
+						nK := 0
+						for _, e := range ap.Calls() {
+							if e.Call.Op == "call" && e.Call.Sym == funcName(kahan) {
+								if len(e.Call.Args) == 2 && e.Call.Args[0].isParam(0) && e.Call.Args[1].isParam(1) {
+									nK++
+								} else {
+									okA = false
+								}
+							}
+						}
+						so := storesOf(ap)
+						for _, fn := range plain {
+							v := so[fn]
+							if v == nil || !(v.isBin("+") && (v.Args[0].isParam(1) && isRecvField(v.Args[1], fn) || v.Args[1].isParam(1) && isRecvField(v.Args[0], fn))) {
+								okA = false
+								foundA = fmt.Sprintf("%s is not += addend (%v)", fn, v)
+							}
+						}
+						if nK != 1 || len(so) != len(plain) {
+							okA = false
+							foundA = firstNonEmpty(map[bool]string{true: "", false: foundA}[okA], fmt.Sprintf("%d compensated step(s), fields written %d", nK, len(so)))
+						}
+					}
+					c.R.check(okA, rule, "AddToSum", shortFn(ats), c.fpos(ats), "one compensated step with the addend and every plain running sum += addend, nothing else", foundA)
+				}
+				// Sum(): sum + compensation; the plain running sum only as the documented fallback — when that total
+				// is NaN and the plain sum is infinite (same-signed infinities make the compensated pair NaN)
+				if sm := c.P.DeclaredMethod(st, "Sum"); sm != nil && len(plain) == 1 {
+					sps, _ := exec(c, sm, nil, 1)
+					isTot := func(t *Term) bool {
+						t = stripVers(t)
+						return t.isBin("+") && (isRecvField(t.Args[0], sumF) && isRecvField(t.Args[1], compF) || isRecvField(t.Args[1], sumF) && isRecvField(t.Args[0], compF))
+					}
+					badS := ""
+					nTot := 0
+					for _, sp := range sps {
+						r := sp.RetT[0]
+						switch {
+						case isTot(r):
+							nTot++
+						case isRecvField(stripVers(r), plain[0]):
+							nan, inf := false, false
+							for _, cd := range sp.Conds {
+								t := cd.Term
+								if t.Op == "call" && t.Sym == "math.IsNaN" && isTot(t.Args[0]) && cd.Taken {
+									nan = true
+								}
+								if t.Op == "call" && t.Sym == "math.IsInf" && isRecvField(stripVers(t.Args[0]), plain[0]) && t.Args[1].isConst("0") && cd.Taken {
+									inf = true
+								}
+							}
+							if !nan || !inf {
+								badS = "the plain sum is returned without the evidence that the compensated total is NaN and the plain sum infinite: [" + sp.String() + "]"
+							}
+						default:
+							badS = "returns " + r.Key()
+						}
+					}
+					c.R.check(badS == "" && nTot > 0, rule, "Sum/returns", shortFn(sm), c.fpos(sm), "sum + compensation; the plain running sum only when that total is NaN and the plain sum is infinite", firstNonEmpty(badS, fmt.Sprintf("%d path(s)", len(sps))))
+				}
+			}
 		}
 	}
 	// AddToCount / AddToSum / compensated helper
